@@ -66,6 +66,7 @@ def replay_chunk(args):
     import fastparquet.writer as W
     out = {"jid": jid, "viol": [], "drift": [], "evals": 0, "raised": 0, "rejected_ok": 0}
     d = os.path.join(base, "cw%d" % jid)
+    shutil.rmtree(d, ignore_errors=True)      # a re-run of this job (after a time-out) starts clean
     os.makedirs(d)
     try:
         for ci, case in enumerate(cases):
@@ -351,6 +352,7 @@ def sweep_job(args):
     import fastparquet.writer as W
     out = {"jid": jid, "viol": [], "evals": 0, "files": 0}
     d = os.path.join(base, "s%d" % jid)
+    shutil.rmtree(d, ignore_errors=True)      # a re-run of this job (after a time-out) starts clean
     os.makedirs(d)
     try:
         n = 12
